@@ -895,6 +895,103 @@ Proof.
   rewrite HO. unfold j0. destruct la; rewrite ?Nat.add_0_r; reflexivity.
 Qed.
 
+(* ---- wait-freedom: every operation ends after a bounded number of its own
+   steps, whatever the other thread does ------------------------------------ *)
+Definition wrank (p : wpc) : Z :=
+  match p with
+  | WIdle => 0
+  | WPublish _ _ _ => 1
+  | WCopyC _ len _ _ k => 2 + (len - k)
+  | WBaseC _ len _ => 3 + len
+  | WCopy2 _ len _ w1 k => 2 + (len - w1 - k)
+  | WCopy1 _ len _ _ _ k => 3 + (len - k)
+  | WBase1 _ len _ _ => 4 + len
+  | WW1 _ len _ => 5 + len
+  | WCmpW _ len _ => 6 + len
+  | WNextW _ len => 7 + len
+  | WSizeR _ len _ => 8 + len
+  | WSizeW _ len => 9 + len
+  end.
+Definition rrank (N : Z) (p : rpc) : Z :=
+  match p with
+  | RIdle => 0
+  | RStoreRL _ _ => 1
+  | RStoreR _ _ => 2
+  | RStoreLA _ _ => 1
+  | RCopyC _ _ len _ k _ => 3 + (len - k)
+  | RCopy2 _ len _ r1 k _ => 3 + (len - r1 - k)
+  | RCopy1 _ _ len _ r1 k _ => 4 + Z.max 0 (len - r1) + (r1 - k)
+  | RReadR _ len => 5 + len + N
+  | RFrame _ _ _ => 6 + 2 * N
+  | RVecB _ _ => 7 + 2 * N
+  | RVecR _ _ => 8 + 2 * N
+  | RVecW _ => 9 + 2 * N
+  | RHasR _ _ _ => 10 + 2 * N
+  | RHasW _ _ => 11 + 2 * N
+  end.
+
+Lemma wrank_dec : forall N MM wf, 0 < N -> forall s, Inv N MM wf s -> wp s <> WIdle ->
+  0 <= wrank (wp (wstep N MM s)) < wrank (wp s).
+Proof.
+  intros N MM wf NP s I NI. pose proof (i_wv _ _ _ _ I) as WV.
+  pose proof (inv_iw_range N MM wf NP s I) as WR.
+  unfold RingInv.wview in WV. unfold wstep.
+  destruct (wp s) eqn:EW; try congruence; cbn [wp set_wp wrank].
+  - destruct WV as [_ [[-> _]|[-> _]]]; pose proof (zlen_nonneg m); lia.
+  - destruct WV as [[_ [[-> _]|[-> _]]] _]; pose proof (zlen_nonneg m);
+      destruct (_ <=? _); cbn [wp set_wp push wrank]; lia.
+  - destruct WV as [_ [F _]]. lia.
+  - destruct WV as (_ & [F _] & _). destruct (nw <? iw s); cbn [wp set_wp wrank]; lia.
+  - destruct WV as ((_ & [F _] & _) & _). lia.
+  - destruct WV as ((_ & [F _] & _) & _). lia.
+  - destruct WV as (C & Lt & -> & -> & Hk & _).
+    destruct (wcore_discont N MM wf NP s m len nw I C Lt) as (D1 & D2 & D3).
+    destruct (k <? N - iw s); cbn [wp set_wp wrank]; unfold store;
+      try destruct (inb N (iw s + k)); cbn [wp set_wp set_buf set_err wrank]; lia.
+  - destruct WV as (C & Lt & -> & Hk & _).
+    destruct (k <? len - (N - iw s)); cbn [wp set_wp wrank]; unfold store;
+      try destruct (inb N k); cbn [wp set_wp set_buf set_err wrank]; lia.
+  - destruct WV as ((_ & [F _] & _) & _). lia.
+  - destruct WV as (C & Le & -> & Hk & _).
+    destruct (k <? len); cbn [wp set_wp wrank]; unfold store;
+      try destruct (inb N (iw s + k)); cbn [wp set_wp set_buf set_err wrank]; lia.
+  - destruct (0 <? len); cbn [wp set_wp set_iw push g_acc wrank]; lia.
+Qed.
+
+Lemma rrank_dec : forall N MM frame wf, 0 < N -> frame_ok frame wf -> forall s, Inv N MM wf s -> rp s <> RIdle ->
+  0 <= rrank N (rp (rstep N MM frame s)) < rrank N (rp s).
+Proof.
+  intros N MM frame wf NP FR s I NI.
+  pose proof (inv_step N MM frame wf NP FR s Rd I) as I'. simpl in I'.
+  pose proof (i_rv _ _ _ _ I) as RV. pose proof (i_rv _ _ _ _ I') as RV'.
+  unfold RingInv.rview in RV, RV'. revert RV'. unfold rstep, rfinish.
+  destruct (rp s) eqn:ER; try congruence; cbn [rp set_rp g_snap rrank].
+  - intros _. lia.
+  - destruct (try && _); cbn [rp set_rp push rrank]; intros _; lia.
+  - intros _. lia.
+  - intros _. lia.
+  - intros _. lia.
+  - cbn [rp set_rp]. intros (NE & ->).
+    destruct (msg_in_queue N MM wf s la I NE) as (_ & M2 & _).
+    pose proof (zlen_nonneg (mj s (j0 s la))).
+    change (j0 (set_rp s _) la) with (j0 s la). change (mj (set_rp s _)) with (mj s). lia.
+  - destruct RV as (NE & -> ). pose proof (zlen_nonneg (mj s (j0 s la))).
+    assert (0 <= base_of s la < N).
+    { apply (base_range N MM wf NP s la I). now rewrite ER. }
+    destruct (_ <? _); cbn [rp set_rp rrank]; intros _; lia.
+  - destruct RV as ((NE & -> & _) & _ & _ & -> & Hk).
+    destruct (k <? N - rv); cbn [rp set_rp rrank]; intros RV'.
+    + lia.
+    + destruct RV' as (_ & _ & _ & H). lia.
+  - destruct RV as ((NE & -> & _) & _ & -> & Hk).
+    destruct (_ <? _); [|destruct la]; cbn [rp set_rp rrank]; intros _; lia.
+  - destruct RV as ((NE & -> & _) & _ & _ & Hk).
+    destruct (_ <? _); [|destruct la]; cbn [rp set_rp rrank]; intros _; lia.
+  - cbn [rp set_rp set_irl g_cp push rrank]. intros _. lia.
+  - cbn [rp set_rp set_ir g_cp rrank]. intros _. lia.
+  - cbn [rp set_rp set_irl push rrank]. intros _. lia.
+Qed.
+
 Section Top.
 Variable N MM : Z.
 Variable frame : list byte -> Z.
@@ -956,6 +1053,15 @@ Lemma top_hasnext_exact : forall la try, rp s = RHasW la try ->
   out (rstep N MM frame (rstep N MM frame s)) =
   out s ++ [OHas la (j0 s la <? length (acc s))%nat (length (acc s)) (cons s) (peek s)].
 Proof. intros la try. apply (hasnext_exact N MM frame wf N_pos FR s la try reach_inv). Qed.
+
+Lemma top_wait_free :
+  (wp s <> WIdle -> 0 <= wrank (wp (wstep N MM s)) < wrank (wp s)) /\
+  (rp s <> RIdle -> 0 <= rrank N (rp (rstep N MM frame s)) < rrank N (rp s)).
+Proof.
+  split.
+  - apply (wrank_dec N MM wf N_pos s reach_inv).
+  - apply (rrank_dec N MM frame wf N_pos FR s reach_inv).
+Qed.
 
 Lemma top_safe : err s = false.
 Proof. apply (safe N MM wf), reach_inv. Qed.
